@@ -397,3 +397,59 @@ class SymEval:
             else:
                 raise NFUnsupported(f"statement {type(st).__name__} in {func.qual}")
         return None
+
+
+def method_inline_hook(ix, cls, depth_limit: int = 4):
+    """call_hook for Normalizer: `cls.m(...)` / `self.m(...)` on a method of `cls` (through the MRO) whose body is straight-line with one
+    return is replaced by the normal form of what it returns, its parameters bound to the normal forms of the arguments.  Also the
+    method form of clamp (`x.clamp(min=a)`)."""
+    from .astq import Inliner, statements
+
+    def hook(nz, e, depth=[0]):
+        if isinstance(e.func, ast.Attribute) and e.func.attr in ("clamp", "clip"):
+            kw = {k.arg: k.value for k in e.keywords}
+            lo = e.args[0] if len(e.args) > 0 else kw.get("min")
+            hi = e.args[1] if len(e.args) > 1 else kw.get("max")
+            return F["clamp"](nz.tosym(e.func.value), nz.tosym(lo) if lo is not None else sp.Symbol("None"), nz.tosym(hi) if hi is not None else sp.Symbol("None"))
+        if not (isinstance(e.func, ast.Attribute) and isinstance(e.func.value, ast.Name) and e.func.value.id in ("cls", "self")):
+            return None
+        m = ix.method(cls, e.func.attr) if cls is not None else None
+        if m is None or depth[0] >= depth_limit:
+            return None
+        rets = [s for s in statements(m.node) if isinstance(s, ast.Return) and s.value is not None]
+        if len(rets) != 1 or any(isinstance(s, (ast.If, ast.For, ast.While, ast.Try)) for s in statements(m.node)):
+            raise NFUnsupported(f"helper {m.qual} is not straight-line")
+        params = [p.arg for p in m.node.args.args]
+        if m.kind in ("method", "class") and params:
+            params = params[1:]
+        env = {}
+        for p_, a_ in zip(params, e.args):
+            env[p_] = nz.tosym(a_)
+        names = set(params) | {p.arg for p in m.node.args.kwonlyargs}
+        for k in e.keywords:
+            if k.arg in names:
+                env[k.arg] = nz.tosym(k.value)
+        # class constants referenced as cls.NAME
+        consts = {}
+        for k_ in ix.mro(cls):
+            if k_ not in ix.classes:
+                continue  # external base (ABC, ...)
+            for b in ix.classes[k_].body:
+                if isinstance(b, (ast.Assign, ast.AnnAssign)):
+                    tg = b.targets[0] if isinstance(b, ast.Assign) else b.target
+                    if isinstance(tg, ast.Name) and getattr(b, "value", None) is not None and tg.id not in consts:
+                        v = fold_constants(b.value)
+                        if v is not None:
+                            consts[tg.id] = v
+        depth[0] += 1
+        try:
+            class N2(Normalizer):
+                def tosym(self, x):
+                    t = U(x)
+                    if isinstance(x, ast.Attribute) and isinstance(x.value, ast.Name) and x.value.id in ("cls", "self") and x.attr in consts:
+                        return sp.Float(consts[x.attr]) if consts[x.attr] != int(consts[x.attr]) else sp.Integer(int(consts[x.attr]))
+                    return super().tosym(x)
+            return N2(env, call_hook=hook)(Inliner(m.node).resolve(rets[0].value))
+        finally:
+            depth[0] -= 1
+    return hook
